@@ -73,3 +73,36 @@ mk c13 true false
 printf 'fn f(){ info!(target: "t", "x"); }\n' > $W/c13/src/a.rs
 $B --config $W/c13/Breadlog.yaml >$W/out 2>&1
 if grep -q 'info!(ref = 1; target' $W/c13/src/a.rs; then echo "DEFECT C13 $(cat $W/c13/src/a.rs)"; else echo "OK C13 $(cat $W/c13/src/a.rs)"; fi
+# --- C02 (recorded finding, not repaired): kill between the first rename and the lock write
+mk c02k false true
+for i in 1 2 3; do printf 'fn f%d(){ info!("a"); }\n' $i > $W/c02k/src/f$i.rs; done
+printf 'next_reference_id: 1\n' > $W/c02k/Breadlog.lock
+strace -f -o /dev/null -e trace=rename,renameat,renameat2 -e inject=rename,renameat,renameat2:signal=KILL:when=2 $B --config $W/c02k/Breadlog.yaml >$W/out 2>&1
+n=$(grep -l 'ref:' $W/c02k/src/*.rs | wc -l); lock=$(grep -o '[0-9]*' $W/c02k/Breadlog.lock | tail -1)
+if [ "$n" -ge 1 ] && [ "$lock" -le "$n" ]; then echo "KNOWN-FINDING C02 killed at the second rename: $n file(s) carry ids, lock still says next_reference_id=$lock"; else echo "OK C02k (n=$n lock=$lock)"; fi
+# --- C11 (recorded finding, not repaired): statement text that starts inside a string literal
+mk c11s false false
+printf 'fn f(){ foo("info!(", "x"); }\n' > $W/c11s/src/a.rs
+$B --config $W/c11s/Breadlog.yaml >$W/out 2>&1
+if grep -q 'ref:' $W/c11s/src/a.rs; then echo "KNOWN-FINDING C11 $(cat $W/c11s/src/a.rs)"; else echo "OK C11s"; fi
+# --- later grammar/find() defects (DEFECT on the pinned tree, OK after the fix: commits)
+mk g1 false false
+printf 'fn f(){ return info!("x"); }\n' > $W/g1/src/a.rs
+$B --config $W/g1/Breadlog.yaml >$W/out 2>&1
+grep -q 'ref:' $W/g1/src/a.rs && echo "OK C10 return info!" || echo "DEFECT C10 \`return info!(\"x\")\` not recognised (macro_name skips whitespace)"
+mk g2 false false
+printf 'fn f(){}\n/* a /* b */ info!("x") */\n' > $W/g2/src/a.rs
+$B --config $W/g2/Breadlog.yaml >$W/out 2>&1
+grep -q 'ref:' $W/g2/src/a.rs && echo "DEFECT C11 nested block comment edited: $(tail -1 $W/g2/src/a.rs)" || echo "OK C11 nested comment"
+mk g3 false false
+printf 'fn f(){ info!("// x");\n foo("bar"); }\n' > $W/g3/src/a.rs
+$B --config $W/g3/Breadlog.yaml >$W/out 2>&1
+grep -q 'info!("\[ref: 1\] // x")' $W/g3/src/a.rs && echo "OK C10/C03 message starting with //" || echo "DEFECT C10/C03 message starting with //: $(tr '\n' ' ' < $W/g3/src/a.rs)"
+mk g4 true false
+printf 'fn f(){ info!(ref = 5 ; "x"); }\n' > $W/g4/src/a.rs
+$B --config $W/g4/Breadlog.yaml --check >$W/out 2>&1; rc=$?
+grep -q 'Unusable' $W/out && echo "DEFECT C13 \`ref = 5 ;\` reported as unusable" || echo "OK C13 ref followed by whitespace (rc=$rc)"
+mk g5 false false
+printf 'fn f(){ x::info!("a"); }\n' > $W/g5/src/a.rs
+$B --config $W/g5/Breadlog.yaml >$W/out 2>&1
+grep -q 'ref:' $W/g5/src/a.rs && echo "DEFECT C11 x::info! treated as info!: $(cat $W/g5/src/a.rs)" || echo "OK C11 one-letter module"
